@@ -13,6 +13,7 @@ import (
 	kemtypes "github.com/flant/shell-operator/pkg/kube_events_manager/types"
 	"github.com/flant/shell-operator/pkg/metric"
 	utils "github.com/flant/shell-operator/pkg/utils/labels"
+	"github.com/flant/shell-operator/pkg/verifhook"
 )
 
 type Monitor interface {
@@ -212,6 +213,7 @@ func (m *monitor) CreateInformers() error {
 						log.Err(err))
 				}
 				m.VaryingInformers.Store(nsName, varyingInformers)
+				verifhook.At("mon.nsAfterStore", m)
 
 				ctx, cancelForNs := context.WithCancel(m.ctx)
 				m.cancelForNs.Store(nsName, cancelForNs)
@@ -304,6 +306,7 @@ func (m *monitor) EnableKubeEventCb() {
 			informer.enableKubeEventCb()
 		}
 	})
+	verifhook.At("mon.beforeFlag", m)
 	// Enable events for future VaryingInformers.
 	m.eventsEnabled = true
 }
